@@ -1706,6 +1706,8 @@ class Exec:
                     else:
                         self.pc += [z3.PrefixOf(r, s), z3.Not(z3.SuffixOf(chc, r)),
                                     z3.Implies(z3.Not(z3.SuffixOf(chc, s)), r == s)]
+                    # a consequence stated outright (the string solver is slow to derive it): nothing to strip when the character does not occur at all
+                    self.pc.append(z3.Implies(z3.Not(z3.Contains(s, chc)), r == s))
                 return S(r)
             raise OutsideSubset(f"{name} with non-constant char")
         if name == "lower":
